@@ -75,7 +75,9 @@ TABLE = {
                      "under caching on). TLC also model-checks the mechanism model of the operator caches (EQLMech3: first "
                      "evaluation and re-evaluation equal the denotation; with the incomplete index descent the code had before "
                      "commit 37f0dc8 it derives the former finding F2) and the trace specification requires that model to predict "
-                     "every cached evaluation's exact rows. Rule trees with next_rule branches are compared across evaluations and "
+                     "every cached evaluation's exact rows; on three-variable trees of distinct leaves over overlapping variable "
+                     "sets (grammars G3w / G3ws) it derived the defects repaired by 599f2da and de878c9, whose counterexamples "
+                     "are replayed as they are. Rule trees with next_rule branches are compared across evaluations and "
                      "configurations only (open finding F3).",
                 technique="TLA+ denotational spec + mechanism model of the operator caches (EQLMech3) model checked by TLC + TLC-generated programs and build/configure/evaluate histories replayed + TLC trace validation",
                 ref="7 C05"),
